@@ -376,6 +376,12 @@ func (e *Env) sel(n ESel) Term {
 					r.T = types.NewPointer(f.Type)
 					return r
 				}
+				if fv.isRawElem(pt.Elem()) {
+					// layout-overlay structs (const rawtypes) live in raw memory
+					v := fv.rawLoad(fv.heap(e.st, "M", SInt), add(x, intLit(f.Off)), f.Type)
+					v.T = f.Type
+					return v
+				}
 				v := fv.fieldLoad(e.st, x, pt.Elem(), f)
 				v.T = f.Type
 				return v
